@@ -128,7 +128,13 @@ Fixpoint run_callbacks_c (cl : classes) (dv : deviations) (outs : list outcome) 
 Definition run_callbacks := run_callbacks_c gen_classes.
 
 (* ---------- a history of occurrences against the triggers of one script ---------- *)
-Inductive occ := OUser (e : entry) (o : outcome) | OCallbacks (outs : list outcome).
+Inductive occ :=
+  | OUser (e : entry) (o : outcome)
+  | OCallbacks (outs : list outcome)
+  | OReload                              (* the script file is edited and reloaded (or removed, unloaded, restored, reloaded): every
+                                            trigger is created afresh *)
+  | OLate (e : entry) (o : outcome).     (* the user code of an occurrence at e suspends (task.wait_until); while it is suspended the
+                                            file is reloaded as in OReload; then the old code resumes and ends with o *)
 
 (* what one occurrence looked like from outside *)
 Record oobs := mkObs {
@@ -163,6 +169,14 @@ Definition occ_step_c (cl : classes) (dv : deviations) (sub : subsystem) (m : al
   | OCallbacks outs =>
       let r := run_callbacks_c cl dv outs in
       (m, mkObs true (count_logger LScript (cb_logs r)) 0 (cb_sink r) (cb_ran r))
+  | OReload => (all_alive, mkObs true 0 0 SkNone [])
+  | OLate e o =>
+      if m e then
+        (* the run that was under way keeps its own interpreter and its own try/except layers; the reload in between
+           replaces the triggers, so whatever the old run does to "its" serving loop no longer matters *)
+        let r := run_site_c cl dv sub e o in
+        (all_alive, mkObs true (count_logger LScript (o_logs r)) (count_logger LOther (o_logs r)) (o_sink r) [])
+      else (all_alive, mkObs false 0 0 SkNone [])
   end.
 
 Fixpoint run_history_c (cl : classes) (dv : deviations) (sub : subsystem) (m : alive_map) (h : list occ) : alive_map * list oobs :=
@@ -188,6 +202,9 @@ Definition occ_ok (oc : occ) (ob : oobs) : bool :=
   | OCallbacks outs =>
       ob_served ob && N.eqb (ob_script_logs ob) (N.of_nat (length (filter raises outs))) && sink_none (ob_sink ob)
       && list_eqb Bool.eqb (ob_cb_ran ob) (map (fun _ => true) outs)
+  | OReload => N.eqb (ob_script_logs ob) 0 && sink_none (ob_sink ob)
+  | OLate _ o =>
+      ob_served ob && N.eqb (ob_script_logs ob) (if raises o then 1 else 0) && sink_none (ob_sink ob)
   end.
 
 Fixpoint history_ok (h : list occ) (obs : list oobs) : bool :=
